@@ -93,7 +93,7 @@ pub fn def(tier: Tier) -> PropertyDef {
         id: "C12",
         rule: "0..6 M-FILTER filters of all four kinds (enabled/disabled, negated, overlapping) x streams of 0..40 messages; reference keep(set,msg) from the statement; (a) filter_as_streams: forwarded = kept, unchanged, in order, passed+filtered = received; (b) StreamContext::from(json)+match_filters = keep incl. the event rule. Non-trivial: a message matched by an enabled positive and an enabled negative filter, or >= 2 enabled event filters.",
         assumptions: vec!["match_filters is tested through StreamContext::from which drops disabled filters (as remote/search/export construct the container)"],
-        subs: vec![sub("filter_sets", tier.pick(60_000, 1_500_000), (set, prop::collection::vec(fmsg(), 0..40)), check)
+        subs: vec![sub("filter_sets", tier.pick(300_000, 4_000_000), (set, prop::collection::vec(fmsg(), 0..40)), check)
             .rates(&[("msg_matched_by_pos_and_neg", 0.05), ("only_negative", 0.03), ("ge2_event_filters", 0.05), ("disabled_filter", 0.1), ("marker_filter", 0.2)])
             .boxed()],
         workers: 16,
